@@ -477,27 +477,27 @@ Proof.
   - exists p. destruct (hash_tracks_file _ _ _ _ _ _ _ _ _ _ _ (le_n _) (fun e => e) H) as [Hle Hh]. split; auto.
 Qed.
 
-(* success: the target exists and starts with the expected content (whatever the server did) *)
-Theorem success_has_expected_prefix : forall size expected partial leave attempts script,
-  o_err (download size expected partial leave attempts script) = ENone ->
-  exists tail, o_target (download size expected partial leave attempts script) = Some (expected ++ tail).
+(* HISTORICAL (code before commit adc145b): on success the target starts with the expected content *)
+Theorem before_fix_success_has_expected_prefix : forall size expected partial leave attempts script,
+  o_err (download_before_fix size expected partial leave attempts script) = ENone ->
+  exists tail, o_target (download_before_fix size expected partial leave attempts script) = Some (expected ++ tail).
 Proof.
-  intros size expected partial leave attempts script He. unfold download in *.
+  intros size expected partial leave attempts script He. unfold download_before_fix in *.
   destruct (download_gen_spec false size expected partial leave attempts script) as [[_ (f & Ht & Hs)] | [Hne _]];
     [|contradiction].
   destruct (source_prefix _ _ _ _ _ _ _ Hs) as (p & Hle & Hp).
   exists (skipn p f). rewrite Ht. f_equal. rewrite <- Hp. symmetry. apply firstn_skipn.
 Qed.
 
-(* the full statement holds when the server never sends more than the declared size and says 206 only when it
-   honours the range *)
-Theorem target_only_if_match_guarded : forall size expected partial leave attempts script,
+(* HISTORICAL (code before commit adc145b): the full statement held when the server never sends more than the
+   declared size and says 206 only when it honours the range *)
+Theorem before_fix_guarded : forall size expected partial leave attempts script,
   0 < size -> N.of_nat (length expected) = size ->
   forallb (beh_within (length expected)) script = true ->
-  o_err (download size expected partial leave attempts script) = ENone ->
-  o_target (download size expected partial leave attempts script) = Some expected.
+  o_err (download_before_fix size expected partial leave attempts script) = ENone ->
+  o_target (download_before_fix size expected partial leave attempts script) = Some expected.
 Proof.
-  intros size expected partial leave attempts script Hpos Hsz HF He. unfold download in *.
+  intros size expected partial leave attempts script Hpos Hsz HF He. unfold download_before_fix in *.
   destruct (download_gen_spec false size expected partial leave attempts script) as [[_ (f & Ht & Hs)] | [Hne _]];
     [|contradiction].
   rewrite Ht. f_equal.
@@ -511,12 +511,13 @@ Proof.
     eapply (file_within_size (length expected)); [apply (Hs _ HF Hpos); lia | | | | exact H]; cbn; auto; lia.
 Qed.
 
-(* the full statement, no guard, for the repaired code (truncate when the server ignored Range) *)
-Theorem fixed_target_only_if_match : forall size expected partial leave attempts script,
-  o_err (download_fixed size expected partial leave attempts script) = ENone ->
-  o_target (download_fixed size expected partial leave attempts script) = Some expected.
+(* THE MAIN THEOREM: the full statement, no guard, for the code as it is since commit adc145b (the file is truncated
+   when the server ignored Range) *)
+Theorem target_only_if_match : forall size expected partial leave attempts script,
+  o_err (download size expected partial leave attempts script) = ENone ->
+  o_target (download size expected partial leave attempts script) = Some expected.
 Proof.
-  intros size expected partial leave attempts script He. unfold download_fixed in *.
+  intros size expected partial leave attempts script He. unfold download in *.
   destruct (download_gen_spec true size expected partial leave attempts script) as [[_ (f & Ht & Hs)] | [Hne _]];
     [|contradiction].
   rewrite Ht. f_equal.
@@ -528,7 +529,7 @@ Proof.
     apply (fixed_appends_only _ _ _ []) in H. subst p1. rewrite firstn_all in Hh. auto.
 Qed.
 
-(* ---------------------------------------------------------------- the full statement is false of the code as it is *)
+(* ---------------------------------------------------------------- HISTORICAL: the full statement was false of the code before adc145b *)
 
 (* size 4 declared and consistent; empty partial; response 1: eight wrong bytes, then the connection is lost;
    response 2: the server ignores Range and sends the right content: success, target = abcdXXXX *)
@@ -536,14 +537,14 @@ Definition refute_script : list beh :=
   [Resp 200 true [88;88;88;88;88;88;88;88] (EarlyClose 8); Resp 200 false [97;98;99;100] Full].
 
 Lemma stale_tail_witness :
-  o_err (download 4 [97;98;99;100] [] false 3 refute_script) = ENone /\
-  o_target (download 4 [97;98;99;100] [] false 3 refute_script) = Some [97;98;99;100;88;88;88;88].
+  o_err (download_before_fix 4 [97;98;99;100] [] false 3 refute_script) = ENone /\
+  o_target (download_before_fix 4 [97;98;99;100] [] false 3 refute_script) = Some [97;98;99;100;88;88;88;88].
 Proof. vm_compute. split; reflexivity. Qed.
 
-Theorem target_only_if_match_refuted : exists size expected partial leave attempts script,
+Theorem before_fix_refuted : exists size expected partial leave attempts script,
   0 < size /\ N.of_nat (length expected) = size /\
-  o_err (download size expected partial leave attempts script) = ENone /\
-  o_target (download size expected partial leave attempts script) <> Some expected.
+  o_err (download_before_fix size expected partial leave attempts script) = ENone /\
+  o_target (download_before_fix size expected partial leave attempts script) <> Some expected.
 Proof.
   exists 4, [97;98;99;100], [], false, 3%nat, refute_script.
   destruct stale_tail_witness as [He Ht]. rewrite Ht.
@@ -552,10 +553,10 @@ Qed.
 
 (* why the guarded theorem needs 0 < size: with an undeclared size (0) even a server that stays within the guard
    (honest content, merely ignoring Range) leaves the stale tail of an over-long partial file *)
-Theorem unknown_size_refuted : exists expected partial leave attempts script,
+Theorem before_fix_unknown_size_refuted : exists expected partial leave attempts script,
   forallb (beh_within (length expected)) script = true /\
-  o_err (download 0 expected partial leave attempts script) = ENone /\
-  o_target (download 0 expected partial leave attempts script) <> Some expected.
+  o_err (download_before_fix 0 expected partial leave attempts script) = ENone /\
+  o_target (download_before_fix 0 expected partial leave attempts script) <> Some expected.
 Proof.
   exists [97;98;99;100], [88;88;88;88;88;88;88;88], false, 3%nat, [Resp 200 false [97;98;99;100] Full].
   vm_compute. repeat split; discriminate.
